@@ -74,6 +74,7 @@ type Term struct {
 	open  bool       // mentions a bound variable (cannot be hoisted)
 	isVar bool       // bound variable leaf
 	ival  *big.Int   // for integer literals
+	h     uint64     // structural hash, stable across contexts (same construction => same hash)
 }
 
 type BoundVar struct {
@@ -96,6 +97,7 @@ type FunDecl struct {
 type Ctx struct {
 	tab     map[string]*Term
 	nextID  int
+	byHash  map[uint64]*Term
 	decls   map[string]*FunDecl // declared consts (no args) and functions
 	declOrd []string
 	dtypes  []string // datatype declarations (raw SMT)
@@ -104,7 +106,7 @@ type Ctx struct {
 }
 
 func NewCtx() *Ctx {
-	return &Ctx{tab: map[string]*Term{}, decls: map[string]*FunDecl{}, fresh: map[string]int{}}
+	return &Ctx{tab: map[string]*Term{}, decls: map[string]*FunDecl{}, fresh: map[string]int{}, byHash: map[uint64]*Term{}}
 }
 
 func (c *Ctx) key(op string, sort Sort, args []*Term, extra string) string {
@@ -126,13 +128,28 @@ func (c *Ctx) mk(op string, sort Sort, args ...*Term) *Term {
 	}
 	t := &Term{id: c.nextID, op: op, args: args, sort: sort}
 	c.nextID++
+	hh := fnv1a(op + "|" + string(sort))
 	for _, a := range args {
 		if a.open {
 			t.open = true
 		}
+		hh = hh*1099511628211 ^ a.h
+	}
+	t.h = hh
+	if !t.open {
+		c.byHash[hh] = t
 	}
 	c.tab[k] = t
 	return t
+}
+
+func fnv1a(s string) uint64 {
+	h := uint64(14695981039346656037)
+	for i := 0; i < len(s); i++ {
+		h ^= uint64(s[i])
+		h *= 1099511628211
+	}
+	return h
 }
 
 // ---- leaves ----
@@ -405,6 +422,13 @@ func (c *Ctx) Eq(a, b *Term) *Term {
 	if a.ival != nil && b.ival != nil {
 		return c.Bool(a.ival.Cmp(b.ival) == 0)
 	}
+	// (ite c k1 k2) == k  with literal leaves: distribute (prunes dispatch arms)
+	if a.ival != nil && b.op == "ite" {
+		a, b = b, a
+	}
+	if b.ival != nil && a.op == "ite" && iteLiteralLeaves(a, 6) {
+		return c.Ite(a.args[0], c.Eq(a.args[1], b), c.Eq(a.args[2], b))
+	}
 	if a.sort == SBool {
 		if isTrue(a) {
 			return b
@@ -423,6 +447,16 @@ func (c *Ctx) Eq(a, b *Term) *Term {
 		a, b = b, a
 	}
 	return c.mk("=", SBool, a, b)
+}
+
+func iteLiteralLeaves(t *Term, depth int) bool {
+	if t.ival != nil {
+		return true
+	}
+	if t.op == "ite" && depth > 0 {
+		return iteLiteralLeaves(t.args[1], depth-1) && iteLiteralLeaves(t.args[2], depth-1)
+	}
+	return false
 }
 
 func (c *Ctx) Ne(a, b *Term) *Term { return c.Not(c.Eq(a, b)) }
@@ -567,9 +601,38 @@ func (c *Ctx) Forall(vars []*Term, body *Term, pats ...[]*Term) *Term {
 }
 func (c *Ctx) Exists(vars []*Term, body *Term) *Term { return c.quant("exists", vars, body, nil) }
 
+// patternOK: E-matching patterns may not contain interpreted boolean structure or ite.
+func patternOK(t *Term) bool {
+	switch t.op {
+	case "ite", "and", "or", "not", "=>", "=", "<", "<=", "forall", "exists", "true", "false":
+		return false
+	}
+	for _, a := range t.args {
+		if !patternOK(a) {
+			return false
+		}
+	}
+	return true
+}
+
 func (c *Ctx) quant(q string, vars []*Term, body *Term, pats [][]*Term) *Term {
 	if !body.open {
 		return body
+	}
+	if len(pats) > 0 {
+		var good [][]*Term
+		for _, p := range pats {
+			ok := true
+			for _, x := range p {
+				if !patternOK(x) {
+					ok = false
+				}
+			}
+			if ok {
+				good = append(good, p)
+			}
+		}
+		pats = good
 	}
 	if isTrue(body) || isFalse(body) {
 		return body
@@ -718,6 +781,8 @@ func (c *Ctx) rebuild(t *Term, args []*Term) *Term {
 
 // ---- printing ----
 
+var qidOn = false // name quantifiers (:qid) for instantiation profiling
+
 func printTerm(t *Term, names map[int]string) string {
 	var sb strings.Builder
 	writeTerm(&sb, t, names, true)
@@ -742,9 +807,12 @@ func writeTerm(sb *strings.Builder, t *Term, names map[int]string, top bool) {
 			fmt.Fprintf(sb, "(%s %s)", v.Name, v.Sort)
 		}
 		sb.WriteString(") ")
-		if len(t.pats) > 0 {
+		if len(t.pats) > 0 || qidOn {
 			sb.WriteString("(! ")
 			writeTerm(sb, t.args[0], names, false)
+			if qidOn {
+				fmt.Fprintf(sb, " :qid q%d", t.id)
+			}
 			for _, p := range t.pats {
 				sb.WriteString(" :pattern (")
 				for i, x := range p {
